@@ -89,7 +89,7 @@ pub open spec fn carried_sender(r: ResumingDelivery) -> Option<OneshotSender> {
 //@@ subst `local.settle_with_state(remote_state)` => `local.settle_with_state_l(remote_state, log)` rule=R9
 //@@ subst `local.settle()` => `local.settle_l(log)` rule=R9
 //@@ subst `local_recved <= remote_recved` => `received_le(local_recved, remote_recved)` rule=R14
-//@@ subst `let remote_state = remote.map(|inner| { __E1 });` => `let remote_state = match remote { Some(inner) => Some({ __E1 }), None => None };` rule=R19
+//@@ subst `let remote_state = remote.map(|inner| { __E1 });` => `let remote_state = match remote { Some(inner) => Some({ __E1 }), None => None };` rule=R19 unless `\.map\(`
 //@@ spec
     ensures
         r is None ==> final(log)@.len() == old(log)@.len() + 1 && final(log)@.drop_last() =~= old(log)@ && final(log)@.last().0 == local.sender,    // [C02.resume.resolved-once-on-its-own-channel] a send that resumption completes is completed exactly once, through ITS OWN completion channel
